@@ -300,7 +300,7 @@ def explicit_cases():
 
 @st.composite
 def strategy(draw, maxwin):
-    c = draw(audio.audio_case(maxwin=maxwin, maxB=8, shapes=True))
+    c = draw(audio.audio_case(maxwin=maxwin, maxB=8, shapes="light"))
     c["container"] = draw(st.sampled_from(CONTAINERS))
     names = draw(st.lists(st.sampled_from(sorted(PAIRS)), unique=True, max_size=5))
     c["spell"] = {n: draw(st.sampled_from(["short", "both", "long"])) for n in names}
